@@ -513,6 +513,11 @@ func (x *Exec) callFuncValue(s *State, call *ast.CallExpr, v *types.Var) []*Term
 	if fi, ok := x.closureVar[v]; ok {
 		c := x.u.Specs.Contracts[fi.Name]
 		if c == nil {
+			// a local helper closure without contract and without loops: executed in place (it reads the captured
+			// variables as they are at the call, which is what capture by reference means)
+			if outs, ok := x.inlineFunc(s, call, fi, sig, nil); ok {
+				return outs
+			}
 			x.fail(call, "no contract for closure %s", fi.Name)
 		}
 		args := x.evalArgs(s, call, sig)
